@@ -79,11 +79,12 @@ TYPES = {
     "sph3": ([4], lambda l: True),
     "grid1": ([1, 2, 3], lambda l: len(l) - 1 == l[0]),
     "grid3": ([3, 4, 5, 7], lambda l: len(l) - 3 == l[0] * l[1] * l[2]),
+    "bf9": ([4], lambda l: max(l[:3]) <= 1),
     "unit": ([0], lambda l: True),
     "itr": ([2], lambda l: l[0] <= l[1]),
 }
 # number of construction routes the harness offers per type (the model is a value model: routes do not matter)
-ROUTES = {"unit": 1, "bf3": 1, "opt": 3, "eith": 3, "var": 3, "tup": 2, "arr": 2, "earr": 2, "rec": 2, "sti": 2, "recu": 5, "vec1": 3, "vec2": 3,
+ROUTES = {"unit": 1, "bf3": 1, "bf9": 1, "opt": 3, "eith": 3, "var": 3, "tup": 2, "arr": 2, "earr": 2, "rec": 2, "sti": 2, "recu": 5, "vec1": 3, "vec2": 3,
           "vec3": 3, "vec4": 3, "dim2": 3, "dim3": 3, "mat22": 2, "mat23": 2, "box2": 3, "box3": 3, "sph2": 2, "sph3": 2,
           "grid": 4, "grid1": 4, "grid3": 4, "tree": 3, "rv": 5, "ref": 3, "sp": 3, "itr": 2}
 # maxlen for the route-pair digests (quick, thorough) where the full domain would be too large
@@ -285,7 +286,7 @@ def rand_value(r, ty, wide):
         return [r.below(2), comp()]
     if ty == "var":
         return [r.below(3), comp()]
-    if ty == "bf3":
+    if ty in ("bf3", "bf9"):
         return [r.below(2), r.below(2), r.below(2), r.below(3)]
     if ty == "ref":
         return [r.below(3)]
@@ -341,7 +342,7 @@ def near(r, ty, v):
     if ty == "tree":
         w[i - i % 2] += r.choice([-1, 1])    # only values; the shape stays
         return w
-    if ty == "bf3":
+    if ty in ("bf3", "bf9"):
         if i == 3:
             w[3] = (w[3] + 1) % 3
         else:
@@ -483,8 +484,19 @@ def batches(rng, tier):
                         for (w2, h2) in shapes:
                             if a is b or (w, h) == (w2, h2):
                                 ops.append(f"rel grid {enc([w, h] + a)} {enc([w2, h2] + b)}")
+    # lengths around 16, 32, 64: difference at the first / a middle / the last position, proper prefix
+    for n in (15, 16, 17, 31, 32, 33, 63, 64):
+        base = [1] * n
+        seqs = [base] + [base[:k] + [v] + base[k + 1:] for k in sorted({0, 7, 8, n // 2, n - 2, n - 1}) for v in (0, 2)] + [base[:-1]]
+        for i, a in enumerate(seqs):
+            for j, b in enumerate(seqs):
+                ops.append(f"relr rv {i % 5} {(j % 5) + 8 * (j % 2)} {enc(a)} {enc(b)}")
+                ops.append(f"relr grid1 {i % 4} {j % 4} {enc([len(a)] + a)} {enc([len(b)] + b)}")
+                if len(a) == n and len(b) == n and n % 2 == 0:
+                    ops.append(f"relr grid {i % 4} {j % 4} {enc([n // 2, 2] + a)} {enc([n // 2, 2] + b)}")
+                    ops.append(f"rel grid {enc([n // 2, 2] + a)} {enc([2, n // 2] + b)}")
     yield Batch("sequences", ops, exhaustive=True,
-                note="raw_vector / 1-D grid of 4..9 elements: equal, one element different at every position (smaller / larger), "
+                note="raw_vector / 1-D grid of 4..9 (and 15..17, 31..33, 63, 64) elements: equal, one element different at every position (smaller / larger), "
                      "proper prefixes; 2-D grids of the same content in every shape of 4, 6, 8, 9 elements")
     # ---- triples
     r = rng.fork("tri")
